@@ -213,7 +213,7 @@ def main():
         _, cands, args, _ = parse_scenario(text)
         verdicts, _, _ = tracecheck.validate("ResolutionTrace", "ResolutionTrace.cfg", [trace_item(0, cands, args, tr)], "c19r", keep=KEEP)
         acc, why = verdicts[0]
-        print("ResolutionTrace: %s" % ("accepted" if not why else "rejected at event %d: %s" % (acc + 1, why)))
+        print("ResolutionTrace: %s" % ("accepted" if not why else "rejected at event %d: %s" % (acc, why)))
         return 1 if why else 0
 
     chk = hg.Check("C19")
@@ -258,6 +258,7 @@ def main():
     drift = {"rank_formula": 0, "pattern_rank": 0, "effective_rank": 0, "survivor_set": 0, "outcome": 0, "observer": 0}
     drift_samples, singles, sample_scns = [], {}, {}
     st = trn = nitems = nres = 0
+    rejected = []   # (clause, family size, case, description, replay text)
     CHUNK = 30000   # bounded memory: scenarios are replayed and validated chunk by chunk
     for lo in range(0, len(cases), CHUNK):
         part = cases[lo:lo + CHUNK]
@@ -323,14 +324,23 @@ def main():
         nitems += len(items)
         for it in items:
             k = it["id"]
-            acc, why = verdicts[k]
+            at, why = verdicts[k]     # at = 1-based index of the rejected event
             if why:
                 name, cands, args = cases[k][0], cases[k][1], cases[k][2]
-                chk.violation("res:%s:%s" % (why, ",".join(c["l"] for c in cands) + "|" + ";".join(term_text(x) for x in args)),
-                              "ResolutionTrace.tla rejects the recorded resolution at event %d: %s\nfamily: %s\narguments: %s\nevent: %s" % (
-                                  acc + 1, why, " | ".join(cand_line(c) for c in cands), ";".join(term_text(x) for x in args),
-                                  json.dumps(it["ev"][acc])[:600] if acc < len(it["ev"]) else ""),
-                              "# %s\n# %s\n%s\n" % (name, why, scns[k - lo]))
+                rejected.append((why, len(cands), ",".join(c["l"] for c in cands) + "|" + ";".join(term_text(x) for x in args),
+                                 "ResolutionTrace.tla rejects the recorded resolution at event %d: %s\nfamily: %s\narguments: %s\nevent: %s" % (
+                                     at, why, " | ".join(cand_line(c) for c in cands), ";".join(term_text(x) for x in args),
+                                     json.dumps(it["ev"][at - 1])[:700] if 0 < at <= len(it["ev"]) else ""),
+                                 "# %s\n# %s\n%s\n" % (name, why, scns[k - lo])))
+    # report the smallest failing scenarios of every clause (all of them are counted in the evidence)
+    rejected.sort(key=lambda r: (r[0], r[1], r[2]))
+    per_clause = {}
+    for why, _, case, desc, replay in rejected:
+        per_clause[why] = per_clause.get(why, 0) + 1
+        if per_clause[why] <= 3:
+            chk.violation("res:%s:%s" % (why, case), desc, replay)
+    if rejected:
+        chk.notes["rejected_scenarios_per_clause"] = per_clause
     chk.coverage["states"] += st
     chk.coverage["transitions"] += trn
     chk.coverage["traces_validated_against_impl"] += nitems
